@@ -64,8 +64,8 @@ abbrev Bresenham_set_point (b : Bresenham) (v : Point) : Bresenham := ⟨v, b.er
 abbrev Bresenham_set_error (b : Bresenham) (v : Int) : Bresenham := ⟨b.point, v⟩
 
 abbrev BresenhamPoint := EG.BresenhamPoint
-abbrev BresenhamPoint_Normal (p : Point) : BresenhamPoint := .normal p
-abbrev BresenhamPoint_Extra (p : Point) : BresenhamPoint := .extra p
+@[match_pattern] abbrev BresenhamPoint_Normal (p : Point) : BresenhamPoint := .normal p
+@[match_pattern] abbrev BresenhamPoint_Extra (p : Point) : BresenhamPoint := .extra p
 
 abbrev Points := EG.Line.PointsIt
 abbrev Points_mk (parameters : BresenhamParameters) (bresenham : Bresenham) (points_remaining : Nat) : Points :=
